@@ -19,7 +19,8 @@ LEVEL_NOTE = ("Proved (S4V.Props.TimeSpec over the hand model of captures_to_buf
               "C04_normalise_parse: for all date-time sets, canonical buffer pieces parse to instantNs of the denoted fields with zone-less/_fill sets read "
               "in the fallback zone, plus notation lemmas (day 8/ 8/08, unpadded month/hour, month names, fill year, fraction padding = as written, "
               "10-12 digits truncated, named/ambiguous zones). False statements proved false: epoch timestamps are shifted by --tz-offset "
-              "(C04_epoch_full_false), `May.` panics (C04_may_dot_panics). Calendar: civil_roundtrip both ways for all Int, strict monotonicity "
+              "(C04_epoch_full_false). Repaired and now proved: every written form of every month abbreviation, `May.` included, has an arm "
+              "(C04_month_abbrev_complete, C04_may_dot; counter-model of the old 102-name table: C04_may_dot_before_repair). Calendar: civil_roundtrip both ways for all Int, strict monotonicity "
               "(S4V.Lemmas.Time). NOT theorems: what the 173 regexes capture, which pattern wins block-zero analysis, chrono = parseBuf: these are the "
               "correspondence (every row, rendered lines) and the end-to-end probes.")
 ASSUME = ["chrono 0.4.40 strptime behaves as modelled in parseBuf (differential: `time parse`)",
@@ -56,10 +57,20 @@ def probes():
     add('ambiguous-zone-fallback', lambda i: f'2024-03-01 00:00:0{i} IST host app: m', lambda i: ns(2024, 3, 1, 0, 0, i, 0, 3600), tz='+01:00')
     add('epoch', lambda i: f'170000000{i} host app: m', lambda i: (1700000000 + i) * 10 ** 9)
     add('epoch-frac', lambda i: f'170000000{i}.250 host app: m', lambda i: (1700000000 + i) * 10 ** 9 + 250000000)
+    # repaired finding F27 (b9821264): `May.` captured by a CGP_MONTHb row must give the instant it denotes like `Jun.`
+    # (before the repair these two files made the file's thread panic); the signature is kept so a regression is
+    # reported under the old name
+    add('may-dot', lambda i: f'[31/May./2024:12:00:0{i} +0000] m', lambda i: ns(2024, 5, 31, 12, 0, i, 0, 0), sig='time:may-dot-panics-file-dropped')
+    add('may-dot-tabs', lambda i: f'Started on:\tFri May.\t31 12:00:0{i}\t2024 m', lambda i: ns(2024, 5, 31, 12, 0, i, 0, 0),
+        sig='time:may-dot-panics-file-dropped')
+    add('jun-dot', lambda i: f'[28/Jun./2024:12:00:0{i} +0000] m', lambda i: ns(2024, 6, 28, 12, 0, i, 0, 0))
+    add('jun-dot-weekday', lambda i: f'Fri Jun. 28 12:00:0{i} 2024 m', lambda i: ns(2024, 6, 28, 12, 0, i, 0, 0))
     # findings
     add('epoch-with-tz-offset', lambda i: f'170000000{i} host app: m', lambda i: (1700000000 + i) * 10 ** 9, tz='+05:00',
         sig='time:epoch-shifted-by-tz-offset')
-    add('may-dot', lambda i: f'Fri May. 31 12:00:0{i} 2024 m', lambda i: ns(2024, 5, 31, 12, 0, i, 0, 0), sig='time:may-dot-panics-file-dropped')
+    # (was F29, repaired by bd971ab2) the rows for this notation use CGP_MONTHBb, which lacked the dotted forms of May only
+    add('may-dot-weekday', lambda i: f'Fri May. 31 12:00:0{i} 2024 m', lambda i: ns(2024, 5, 31, 12, 0, i, 0, 0),
+        sig='time:may-dot-unmatched-by-MONTHBb')
     add('long-names-zone-cut', lambda i: f'Wednesday, September 30, 2024, 01:02:0{i} -08:15 m', lambda i: ns(2024, 9, 30, 1, 2, i, 0, -29700),
         sig='time:zone-beyond-range_regex-end')
     return P
@@ -68,6 +79,7 @@ def probes():
 def oracle(ctx):
     fails, samples, dist = [], [], {}
     ev = 0
+    open_sigs = {k.get('signature') for k in core.load_known().get('open', []) if k.get('property') == 'C04'}
     for name, mk, exp, tz, sig in probes():
         lines = [mk(i) for i in (0, 1, 2)]
         data = ('\n'.join(lines) + '\n').encode()
@@ -82,15 +94,15 @@ def oracle(ctx):
         if not ok:
             fails.append({'signature': sig or ('time:probe-differs:' + name), 'detail': f'{name}: rc={rc} got {out[:160]!r} want {want[:160]!r}',
                           'args': args[:-1] + ['FILE'], 'file_hex': data.hex()})
-        elif sig:
-            # a recorded finding no longer reproduces: say so (not a failure)
+        elif sig in open_sigs:
+            # a recorded (open) finding no longer reproduces: say so (not a failure)
             ctx.log(f'note: known finding {sig} did not reproduce')
         if len(samples) < 3:
             samples.append({'oracle': 'C04 probe', 'notation': name, 'first_out': out[:90].decode('latin1')})
         os.unlink(path)
     res = {'evaluations': ev, 'distinct_nontrivial': ev, 'failures': fails, 'samples': samples, 'outcomes': dist,
            'rule': 'one 3-line probe log per documented notation (RFC 3339 +-fraction/offset, RFC 5424, RFC 3164 with year, RFC 2822, zone-less with '
-                   '--tz-offset, named and ambiguous zone, epoch +-fraction) plus the three finding witnesses; stdout prefix must be the denoted instant'}
+                   '--tz-offset, named and ambiguous zone, epoch +-fraction) plus `May.`/`Jun.` witnesses of the repaired F27 and the three open finding witnesses; stdout prefix must be the denoted instant'}
     ctx.steps.setdefault('oracle', []).append({k: v for k, v in res.items() if k not in ('failures', 'samples')})
     ctx.log(f'oracle C04: {ev} probes, outcomes {dist}')
     return res
